@@ -559,6 +559,9 @@ example : ∀ r ∈ renderCols exShow exAcq, ∀ f ∈ r, ';' ∉ f.toList := by
 example : (renderText ';' (renderCols exShow exAcq)).take 3 =
     [";;;;Sample 1;2;\n", ";;;;<Identifier>;<Identifier>;\n", "MainRuns;0;31P;X [u];0.000;1.000;\n"] := by decide
 
+/-- `render_not_other` applies to the example -/
+example : 0 < exAcq.nscans ∧ 0 < exAcq.elements.length ∧ 0 < exAcq.channels.length := by decide
+
 /-- `sniff_other`: a text that is no export -/
 example : otherFile [["A", "B\n"], ["MainRuns", "0", "31P", "Counter", "1.0", "\n"]] = true := by decide
 
